@@ -210,6 +210,24 @@ where
     }))
 }
 
+/// `(NestedDelims s e ((s1 e1) ..))`: `chumsky::recovery::nested_delimiters(s, e, [(s1, e1), ..], |span| Val::Span(span))`.
+pub fn v_nested_delims<'a, I, E>(cv: &I::Conv, s: u32, e: u32, others: &[(u32, u32)]) -> Res<P<'a, I, E>>
+where
+    I: HInput<'a> + ValueInput<'a>,
+    E: HErr<'a, I>,
+{
+    use chumsky::recovery::nested_delimiters;
+    let t = |x: u32| I::Token::seq(&[x]).into_iter().next().expect("one token");
+    let cv = cv.clone();
+    let fb = move |sp: I::Span| span_val::<I>(&cv, sp);
+    Ok(match others {
+        [] => bx(nested_delimiters::<I, Val, Ex<E>, _, 0>(t(s), t(e), [], fb)),
+        [a] => bx(nested_delimiters::<I, Val, Ex<E>, _, 1>(t(s), t(e), [(t(a.0), t(a.1))], fb)),
+        [a, b] => bx(nested_delimiters::<I, Val, Ex<E>, _, 2>(t(s), t(e), [(t(a.0), t(a.1)), (t(b.0), t(b.1))], fb)),
+        _ => return unsupported("NestedDelims: built for at most 2 other delimiter pairs"),
+    })
+}
+
 pub fn v_any<'a, I, E>() -> P<'a, I, E>
 where
     I: HInput<'a> + ValueInput<'a>,
@@ -535,6 +553,7 @@ impl<'a, I: HInput<'a>, E: HErr<'a, I>> Builder<'a, I, E> {
             G::Boxed(a) => bx(self.g(a)?.boxed()),
             G::NestedIn(a) => I::nested_in(self.g(a)?)?,
             G::Skip(n) => I::skip(*n)?,
+            G::NestedDelims(s, e, others) => I::nested_delims(&self.cv, *s, *e, others)?,
             G::ExtWrap(a) => bx(chumsky::extension::v1::Ext(ExtW(self.g(a)?))),
             G::Pratt(form, atom, ops) => {
                 let atom = self.g(atom)?;
